@@ -125,6 +125,13 @@ CLAIMED["C17"] = dict(
     note="Exception subclasses and groups only (KeyboardInterrupt/SystemExit outside); TLS handshake failures outside (real OpenSSL); kernel RST modelled as ConnectionResetError on first read.",
 )
 
+CLAIMED["C13"] = dict(
+    text="Bounded exploration, driven by the solver, of cancel-scope programs executed by the real CancelScope / TaskUtils / AsyncIOBackend code on a deterministic loop with real asyncio tasks and timers: a descriptor (1-3 nested scopes of kinds move_on_after / timeout / explicit cancel / reschedule / never cancelled, body sleeps with an optional ignore_cancellation section, optional external task.cancel()) with all durations from a small grid is decoded into a program; invariants taken directly from the statement are asserted per run (no sleep resumes after an enclosing scope became cancelled; a deadline that passed cancelled the scope; abandoned body => caught or an enclosing cancel; un-cancelled scopes neither catch nor swallow; timeout() raises iff caught; no leftover cancellation after the scopes; shielded sections run to completion).",
+    design="4/C13",
+    technique="symbolic execution of real code (CrossHair+z3): the solver exhausts the bounded descriptor x timing space; invariant oracle",
+    note="Honest statement of level: every path is one concrete program + timing (values must be concrete when they reach CPython's C timer heap); the solver's role is exhaustive, gap-free coverage of the bounded descriptor space. Ties (two cancellations pending at one checkpoint) are left unconstrained, as the statement allows.",
+)
+
 NOT_APPLICABLE = {
     "C08": "TLS byte-transparency/encryption is decided inside OpenSSL's record layer (C code, cryptography): it cannot be executed symbolically by any installed engine; stubbing it would verify the stub, and running real OpenSSL realises every symbolic size (degenerates to concrete enumeration). See DESIGN.md section 5.",
     "C09": "Whether a cut at a byte offset of a real ciphertext stream yields SSLEOFError / SSLZeroReturnError / a protocol error is OpenSSL's partial-record parsing, not encodable; the EasyNetwork part is a three-way exception mapping. See DESIGN.md section 5.",
